@@ -49,14 +49,6 @@ Definition sizeof_type (p : platform) (t : sztype) : N :=
   | TLongDouble => p_longdouble p | TPointer => p_pointer p | TSizeT => p_size_t p
   end.
 
-(* valueFlowSetConstantValue (lib/vf_common.cpp) on a narrow character token whose
-   characterLiteralToLL value is z and which has n characters.  The adjustment `signedValue +=
-   maxValue + 1` needs a token type with sign UNSIGNED; setValueTypeInTokenList gives a character
-   token the type (signed) int in C and for multi-character literals, and char with UNKNOWN_SIGN
-   in C++ (the platform's defaultSign is not consulted), so the adjustment never fires and z is
-   reported as it is, whatever the platform and language *)
-Definition char_token_value (p : platform) (cpp : bool) (n : N) (z : Z) : Z := z.
-
 (* the value of a one-character narrow literal with byte value v on platform p (ISO C 6.4.4.4p10:
    the value of a char object holding v, converted to int) *)
 Definition char_value_on (p : platform) (v : N) : Z :=
